@@ -227,7 +227,7 @@ def g_stream(s):
     dup = s.int(4) == 0
     if dup and srcs:
         srcs.insert(s.int(len(srcs) + 1), srcs[s.int(len(srcs))])
-    return {"sub": "stream", "sources": srcs, "opts": [bool(s.int(2)), bool(s.int(2)), bool(s.int(2))], "api": s.choice(["main", "enum", "enum", "enum", "round-robin", "reordered-keys", "iterator-paths", "tuple-paths", "hand-made"]), "uris": ["", "u", "0"],
+    return {"sub": "stream", "sources": srcs, "opts": [bool(s.int(2)), bool(s.int(2)), bool(s.int(2))], "api": s.choice(["main", "enum", "enum", "enum", "round-robin", "reordered-keys", "hand-made"]), "uris": ["", "u", "0"],
             "same_path_for_equal_sources": dup}
 
 
@@ -299,11 +299,9 @@ def unit_corpus(a):
     for i in range(0, len(texts), 5):
         cases.append({"sub": "stream", "sources": [t for _, t in texts[i:i + 3]], "opts": [True, True, True], "api": "round-robin"})
         cases.append({"sub": "stream", "sources": [t for _, t in texts[i:i + 3]], "opts": [True, True, True], "api": "reordered-keys"})
-        cases.append({"sub": "stream", "sources": [t for _, t in texts[i:i + 3]], "opts": [True, True, True], "api": "iterator-paths"})
     for i in range(0, len(texts), 6):
         for opts in ([True, True, True], [False, True, False], [False, False, True]):
             cases.append({"sub": "stream", "sources": [t for _, t in texts[i:i + 3]], "opts": opts, "api": "hand-made", "uris": ["", " ", "0", "None", "a b", "\u00e9.feature", "x" * 300][i % 7:] + [""]})
-        cases.append({"sub": "stream", "sources": [t for _, t in texts[i:i + 2]], "opts": [True, True, True], "api": "fifo"})
     same = texts[3][1]
     cases.append({"sub": "stream", "sources": [same, texts[4][1], same, same], "opts": [True, True, True], "api": "enum", "same_path_for_equal_sources": True})
     cases.append({"sub": "stream", "sources": [same, same], "opts": [False, False, True], "api": "main", "same_path_for_equal_sources": True})
